@@ -267,3 +267,8 @@ impl Block for AuDecode {
         Ok(BlockRet::Again)
     }
 }
+
+#[cfg(rustradio_verif)]
+pub mod verif_access {
+    include!(concat!(env!("RUSTRADIO_VERIF_DIR"), "/access/au.rs"));
+}
